@@ -1,9 +1,52 @@
-(* C02 — placeholder while proofs are written: table sanity obligations tied to the generated tables. *)
-From Hv Require Import Prelude Bytes StreamBuf TablesHttp Http.
+(* C02 — request parsing: segmentation independence (this file) ; faithfulness / round trip are in C02_flat.v.
+   Property theorems only. *)
+From Hv Require Import Prelude Bytes StreamBuf StreamBufProofs TablesHttp Http HttpStreamProofs.
 Open Scope N_scope.
 
-(* Headers::iter must use the stable sort (F06): regenerated from headers.rs on every run. *)
+(* Headers::iter must use the stable sort (F06): the flag is regenerated from headers.rs on every run. *)
 Theorem C02_headers_iter_stable : headers_iter_sort_is_stable = true.
 Proof. reflexivity. Qed.
 
+(* The code-shaped parser (one raw read for the first byte, then a fresh 8 KiB BufReader, read_until / read_exact as in
+   request.rs) computes, for EVERY byte string and EVERY chunking of it into non-empty reads, exactly what the flat
+   parser computes on the concatenation: same request, same error class; and the bytes still unread (buffered or not)
+   are exactly the flat parser's remainder. *)
+Theorem C02_parse_request_chunked_refines_flat :
+  forall (ipp : bytes -> option bytes) (p : peer) (cs : chunks),
+    wf_chunks cs ->
+    orel (parse_request_chunked ipp p cs) (parse_request_flat ipp p (concat cs)).
+Proof. exact parse_request_chunked_refines. Qed.
+
+(* Hence the result does not depend on how the bytes are split across reads. *)
+Theorem C02_parse_request_segmentation_independent :
+  forall (ipp : bytes -> option bytes) (p : peer) (cs1 cs2 : chunks),
+    wf_chunks cs1 -> wf_chunks cs2 -> concat cs1 = concat cs2 ->
+    oval (parse_request_chunked ipp p cs1) = oval (parse_request_chunked ipp p cs2).
+Proof. exact parse_request_segmentation_independent. Qed.
+
+(* BufReader model: a line read through the buffer is the flat split at the first LF, whatever the chunking. *)
+Theorem C02_read_line_refines_flat :
+  forall br : bufreader, wf_chunks (inner br) ->
+    exists line br', read_line br = Some (line, br') /\
+      (line, contents br') = read_until_flat LF (contents br) /\ wf_chunks (inner br').
+Proof. exact read_line_spec. Qed.
+
+(* Non-vacuity: a concrete request split in the middle of a header name parses, and equals the unsplit parse. *)
+Example C02_example_split :
+  let b1 := [71;69;84;32;47;32;72;84;84;80;47;49;46;49;13;10;72;111] in
+  let b2 := [115;116;58;32;120;13;10;13;10] in
+  wf_chunks [b1; b2] /\
+  oval (parse_request_chunked ipv4_parse {| p_ip := [49]; p_port := 80 |} [b1; b2]) =
+  oval (parse_request_chunked ipv4_parse {| p_ip := [49]; p_port := 80 |} [b1 ++ b2]) /\
+  is_crash (parse_request_chunked ipv4_parse {| p_ip := [49]; p_port := 80 |} [b1; b2]) = false /\
+  (exists r br, parse_request_chunked ipv4_parse {| p_ip := [49]; p_port := 80 |} [b1; b2] = Ok (r, br)).
+Proof.
+  cbv zeta. split; [repeat constructor; discriminate|]. split; [vm_compute; reflexivity|]. split; [vm_compute; reflexivity|].
+  vm_compute. eexists. eexists. reflexivity.
+Qed.
+
 Print Assumptions C02_headers_iter_stable.
+Print Assumptions C02_parse_request_chunked_refines_flat.
+Print Assumptions C02_parse_request_segmentation_independent.
+Print Assumptions C02_read_line_refines_flat.
+Print Assumptions C02_example_split.
